@@ -48,6 +48,7 @@ const exitRestart = 3
 
 var outPort = eval.DummyOutputPort
 var childEv *eval.Evaler
+var baseline map[int]bool
 
 func childMain() {
 	job := os.Getenv("C17_JOB")
@@ -149,10 +150,15 @@ func runCall(c call, base string, huge vals.List, deadline, grace time.Duration)
 		}
 	}()
 
-	before := map[int]bool{}
-	for _, g := range goroutines() {
-		before[g.id] = true
+	// goroutines that exist before the call do not belong to the evaluation.  A full dump stops
+	// the world, so the set is only re-taken when the number of goroutines changed (a leak).
+	if baseline == nil || runtime.NumGoroutine() != len(baseline) {
+		baseline = map[int]bool{}
+		for _, g := range goroutines() {
+			baseline[g.id] = true
+		}
 	}
+	before := baseline
 	ctx, cancel := context.WithCancel(context.Background())
 	defer cancel()
 	type res struct {
@@ -228,15 +234,17 @@ type gor struct {
 
 var reGor = regexp.MustCompile(`^goroutine (\d+) \[([^\]]*)\]:`)
 
+var dumpBuf = make([]byte, 256<<10)
+
 func goroutines() []gor {
-	buf := make([]byte, 1<<20)
+	var buf []byte
 	for {
-		n := runtime.Stack(buf, true)
-		if n < len(buf) {
-			buf = buf[:n]
+		n := runtime.Stack(dumpBuf, true)
+		if n < len(dumpBuf) {
+			buf = dumpBuf[:n]
 			break
 		}
-		buf = make([]byte, 2*len(buf))
+		dumpBuf = make([]byte, 2*len(dumpBuf))
 	}
 	var out []gor
 	for _, blk := range strings.Split(string(buf), "\n\n") {
